@@ -176,7 +176,7 @@ func (c34Conn) Begin() (driver.Tx, error)           { return nil, errors.New("no
 var (
 	c34ArgsRx  = regexp.MustCompile(`create_blocks\('([^']*)',\s*(-?\d+)\)`)
 	c34FeatRx  = regexp.MustCompile(`features @> '(\{[^']*\})'`)
-	c34IDRx    = regexp.MustCompile(`id"? (<=|>=|<|>) (-?\d+)`)
+	c34IDRx    = regexp.MustCompile(`id"? (<=|>=|<|>) '?(-?\d+)'?`)
 	c34LimitRx = regexp.MustCompile(`LIMIT (\d+)`)
 )
 
@@ -192,7 +192,7 @@ func (c34Conn) ExecContext(_ context.Context, q string, _ []driver.NamedValue) (
 }
 
 func (c34Conn) QueryContext(_ context.Context, q string, _ []driver.NamedValue) (driver.Rows, error) {
-	if !strings.Contains(q, "_system.ledgers") {
+	if !strings.Contains(q, `"_system"."ledgers"`) && !strings.Contains(q, "_system.ledgers") {
 		return nil, errors.New("unexpected query " + q)
 	}
 	var featKey, featVal, op string
@@ -277,6 +277,9 @@ func c34Check(n, size int, free []int) {
 	err := c34Runner(size).run(context.Background())
 	if err != nil {
 		verifNote("worker run failed: " + err.Error())
+		if !verifIsSymbolic() {
+			println("worker run failed:", err.Error(), c34Bad)
+		}
 	}
 	verifAssert("C34:worker-run-succeeds", err == nil && c34Bad == "")
 	for _, r := range c34Table {
